@@ -90,7 +90,10 @@ def proof_obligations(pid):
     if n_pa < len(thms):
         res['failure'] = 'props/%s.v: %d theorems but only %d Print Assumptions' % (pid, len(thms), n_pa)
         return res
-    notallowed = [a for a in axioms if a not in ALLOWED_AXIOMS and not a.startswith('PrimFloat.') and not a.startswith('Uint63.') and not a.startswith('PrimInt63.') and not a.startswith('FloatOps.')]
+    # primitive integers / floats of the Coq kernel and their standard-library specifications (Uint63, PrimFloat, FloatAxioms) are
+    # listed by Print Assumptions; they are part of the standard library, named in the trusted base (DESIGN.md)
+    STD_PREFIXES = ('PrimFloat.', 'Uint63.', 'PrimInt63.', 'FloatOps.', 'FloatAxioms.', 'SpecFloat.')
+    notallowed = [a for a in axioms if a not in ALLOWED_AXIOMS and not a.startswith(STD_PREFIXES)]
     if notallowed:
         res['failure'] = 'props/%s.v depends on axioms outside the allow-list: %s' % (pid, notallowed)
         return res
